@@ -586,6 +586,8 @@ def check(prog, rep):
 
 
 VARIANTS = [
+    ("B error text quotes the built-in's docstring unguarded", "aw_query/query2.py", "                f\"Tried to call function {self.name} with invalid amount of arguments\"\n", "                f\"Tried to call function {self.name} with invalid amount of arguments ({functions[self.name].__doc__.strip()})\"\n", "OPT-ATTR"),
+    ("OK error text quotes the docstring when there is one", "aw_query/query2.py", "                f\"Tried to call function {self.name} with invalid amount of arguments\"\n", "                f\"Tried to call function {self.name} with invalid amount of arguments ({(functions[self.name].__doc__ or '').strip()})\"\n", "ok"),
     ("B find_bucket lower-cases its optional (unverified) hostname argument", QF, "                if bucket_metadata[\"hostname\"] == hostname:", "                if bucket_metadata[\"hostname\"].lower() == hostname.lower():", "ARG-TYPED"),
     ("B event-list parameter annotated List[Event] (typecheck skips it)", QF, "def q2_sort_by_duration(events: list) -> List[Event]:", "def q2_sort_by_duration(events: List[Event]) -> List[Event]:", "ARG-TYPED"),
     ("B built-in registered without the typecheck wrapper", QF, "@q2_function(sort_by_timestamp)\n@q2_typecheck\n", "@q2_function(sort_by_timestamp)\n", "ARG-TYPED"),
